@@ -425,3 +425,27 @@ def extract_schema_py(protocols_py_text, proto):
     import re
     m = re.search(r'class %sWriterBase\(.*?schema = r"""(.*?)"""' % re.escape(proto), protocols_py_text, re.S)
     return m.group(1) if m else None
+
+
+def extract_schema_cpp(protocols_cc_text, proto):
+    """The schema literal embedded in generated C++ (<proto>WriterBase::schema_): one raw string literal, or several adjacent
+    string literals (which the compiler concatenates)."""
+    import re
+    m = re.search(r'std::string %sWriterBase::schema_\s*=(.*?);\s*\n' % re.escape(proto), protocols_cc_text, re.S)
+    if not m:
+        return None
+    init = m.group(1)
+    parts, pos = [], 0
+    tok = re.compile(r'\s*(?:R"([^()\s]*)\((.*?)\)\1"|"((?:[^"\\\n]|\\.)*)")', re.S)
+    while pos < len(init):
+        t = tok.match(init, pos)
+        if not t:
+            break
+        if t.group(3) is not None:
+            parts.append(bytes(t.group(3), "utf-8").decode("unicode_escape"))
+        else:
+            parts.append(t.group(2))
+        pos = t.end()
+    if init[pos:].strip():
+        return None         # something other than string literals: not understood
+    return "".join(parts)
